@@ -72,6 +72,25 @@ CHECKS = {
             "through mypy.main.main for end-to-end effect.",
             "which modules a pattern matches is taken from mypy itself (not judged); inline application in snapshot lanes "
             "replicates build's three calls, the real State path is covered by the witness lane", "4/C17"),
+    "C07": ("model_checking",
+            "stateless deviation-bounded schedule exploration of the real coordinator + worker processes under an owned scheduler",
+            "The real mypy.build coordinator (num_workers=N) and real `python -m mypy.build_worker` processes run under a "
+            "controller that owns every scheduling decision (which gated worker phase advances, which responses are "
+            "delivered together, which free worker gets a batch); ALL schedules with <= 2 (Q: U1 N=2) / <= 1 deviations "
+            "(T: <= 3 / <= 2) from the default are executed for diamond, cycle, wide and deep import graphs, N in 1..4 (8 "
+            "with the default schedule), cold and warm caches, both stores; every schedule's output is compared with "
+            "the sequential build and the cache it leaves is validated by a sequential warm run (T: after each edit). "
+            "Replaying a prefix must reproduce the recorded enabled sets (divergence = hard error).",
+            "atomic step = worker phase (interface compute/send, implementation compute/send): races between individual "
+            "store calls of two workers inside a phase are out of reach; fixture stubs, native parser, binary cache", "4/C07"),
+    "C10": ("exploration",
+            "exhaustive seed-set x program, all file-order permutations, all build pairs/triples in one interpreter",
+            "(a) every program of the slice (all file states of 4 (Q) / 9 (T) universes + corpus multi-file cases) built in "
+            "subprocesses differing only in PYTHONHASHSEED (4 seeds Q / 32 T): identical messages and byte-identical cache "
+            "records in both formats; (b) every permutation of the file arguments of every acyclic universe state gives the "
+            "same diagnostic set; (c) every ordered pair (Q) / triple (T) of a 12-build alphabet (incl. a blocker build and a "
+            "daemon-style build) run in ONE interpreter: last build's messages and cache bytes equal a fresh process.",
+            "2^32 hash seeds are not enumerable: a listed seed set; fixture stubs; owned cache-record clock", "4/C10"),
 }
 
 NOT_BUILT = {}
